@@ -2,6 +2,8 @@ import Mathlib.Data.Fintype.Vector
 import Mathlib.Data.Fintype.EquivFin
 import MithrilModel.Properties.C09
 import MithrilModel.Handlers.C09
+import MithrilModel.MmrBytes
+import MithrilModel.MapLink
 /-!
 # Vacuity audit of C09 (`Properties/C09.lean`, `StmBatch`, `StmRootInj`, `MmrSound`, `MkProof`, `Nested`, `MapLink`)
 
@@ -32,6 +34,14 @@ claimed leaves and the concatenations hashed by the level loop, `levelLog_faithf
 tree's computation. Internally the hypothesis is `NoCollisionBetween H U X` (injectivity relativised to the
 two logs). `sat_witness` exhibits a concrete `H`, tree and ACCEPTED batch proof for which every hypothesis
 holds and the collision disjunct is false.
+
+`C09_mkproof_sound_witness(_sized)`, `C09_map_exec_sound_witness(_sized)` (second half of this file): C09(b),(c)
+at BYTE level for `merge a b = H (a ++ b)` with NO hypothesis on `H`: what an accepted (nested) proof contains
+is the value of a sub-tree of the committed tree — a committed leaf when its length is not the hash length —
+or one of three NAMED coincidences between the verifier's log (`proofLog`, `InMapLog`; `proofLog_faithful`)
+and the tree's log (`tlog`): two different hashed strings with one hash, a committed leaf that is a computed
+hash, one concatenation split at two points (the known finding "concat split"). `sat_mkproof_witness`,
+`sat_map_witness`: accepted byte-level proofs for which all of them are false.
 -/
 namespace Vacuity.C09
 open StmBatch StmTree _root_.C09
@@ -841,5 +851,557 @@ hypotheses spelled out -/
 example : toyLeaves ≠ [] ∧ toyLeaves.length < 2 ^ 63 ∧ ([0, 2, 4] : List Nat) ≠ [] ∧
     ([0, 2, 4] : List Nat).Pairwise (· < ·) ∧ ∀ i ∈ [0, 2, 4], i < toyLeaves.length := by
   refine ⟨by decide, by decide, by decide, by decide, by decide⟩
+
+end Vacuity.C09
+
+namespace Vacuity.C09
+/-! ## repair of C09(b): `MKProof` soundness at BYTE level, every exceptional case named
+
+`merge a b = H (a ++ b)` is not injective (F3), so the value-level `C09_mkproof_sound` says nothing about the
+byte-level verifier. Here: whatever an accepted proof `contains` is the value of a SUB-TREE of the committed
+tree (a leaf, or — the known finding "node as leaf" — an inner node), or one of three explicit coincidences
+between the finite log of the verifier's run and the finite log of the committed tree's computation. -/
+open StmBatch ExprTree MkProof Mmr
+
+/-- the byte-level merge of `MKTree` / `MKProof` -/
+abbrev bmerge (H : Bytes → Bytes) (a b : Bytes) : Bytes := H (a ++ b)
+
+abbrev tval (H : Bytes → Bytes) (t : E Bytes) : Bytes := eval (bmerge H) t
+abbrev vval (H : Bytes → Bytes) (v : V Bytes) : Bytes := veval (bmerge H) v
+
+/-- strings hashed while the committed tree is evaluated, and the (left, right) child values -/
+def tlog (H : Bytes → Bytes) : E Bytes → List Bytes
+  | .leaf _ => []
+  | .node l r => (tval H l ++ tval H r) :: (tlog H l ++ tlog H r)
+def tpairs (H : Bytes → Bytes) : E Bytes → List (Bytes × Bytes)
+  | .leaf _ => []
+  | .node l r => (tval H l, tval H r) :: (tpairs H l ++ tpairs H r)
+
+/-- the same for the verifier's expression over claimed leaves and proof items -/
+def vlog (H : Bytes → Bytes) : V Bytes → List Bytes
+  | .claim _ => []
+  | .item _ => []
+  | .node l r => (vval H l ++ vval H r) :: (vlog H l ++ vlog H r)
+def vpairs (H : Bytes → Bytes) : V Bytes → List (Bytes × Bytes)
+  | .claim _ => []
+  | .item _ => []
+  | .node l r => (vval H l, vval H r) :: (vpairs H l ++ vpairs H r)
+
+/-- the three explicit coincidences: (1) two DIFFERENT hashed strings, one of each log, with the same hash;
+(2) a committed leaf IS a hash the verifier computed; (3) a concatenation hashed by the verifier equals one
+hashed for the tree but splits at another point (known finding "concat split") -/
+def Expl (H : Bytes → Bytes) (VL : List Bytes) (VP : List (Bytes × Bytes)) (TL : List Bytes)
+    (TP : List (Bytes × Bytes)) (LV : List Bytes) : Prop :=
+  (∃ a ∈ VL, ∃ b ∈ TL, a ≠ b ∧ H a = H b) ∨
+  (∃ b ∈ LV, ∃ y ∈ VL, b = H y) ∨
+  (∃ p ∈ VP, ∃ q ∈ TP, p.1 ++ p.2 = q.1 ++ q.2 ∧ p.1.length ≠ q.1.length)
+
+theorem Expl.mono {H : Bytes → Bytes} {VL VL' : List Bytes} {VP VP' : List (Bytes × Bytes)} {TL TL' : List Bytes}
+    {TP TP' : List (Bytes × Bytes)} {LV LV' : List Bytes} (h : Expl H VL VP TL TP LV)
+    (h1 : ∀ a ∈ VL, a ∈ VL') (h2 : ∀ a ∈ VP, a ∈ VP') (h3 : ∀ a ∈ TL, a ∈ TL') (h4 : ∀ a ∈ TP, a ∈ TP')
+    (h5 : ∀ a ∈ LV, a ∈ LV') : Expl H VL' VP' TL' TP' LV' := by
+  rcases h with ⟨a, ha, b, hb, hne, he⟩ | ⟨b, hb, y, hy, he⟩ | ⟨p, hp, q, hq, he, hl⟩
+  · exact Or.inl ⟨a, h1 a ha, b, h3 b hb, hne, he⟩
+  · exact Or.inr (Or.inl ⟨b, h5 b hb, y, h1 y hy, he⟩)
+  · exact Or.inr (Or.inr ⟨p, h2 p hp, q, h4 q hq, he, hl⟩)
+
+/-- **byte-level `claim_is_subtree_value`**: NO hypothesis on `H` -/
+theorem claim_cases (H : Bytes → Bytes) : ∀ (v : V Bytes) (t : E Bytes), vval H v = tval H t →
+    ∀ x ∈ claims v, (∃ s ∈ subtrees t, x = tval H s) ∨
+      Expl H (vlog H v) (vpairs H v) (tlog H t) (tpairs H t) (leaves t) := by
+  intro v
+  induction v with
+  | claim a =>
+    intro t h x hx
+    simp [claims] at hx; subst hx
+    exact Or.inl ⟨t, self_mem_subtrees t, by simpa [vval, veval] using h⟩
+  | item a => intro t h x hx; simp [claims] at hx
+  | node vl vr ihl ihr =>
+    intro t h x hx
+    cases t with
+    | leaf b =>
+      right; right; left
+      exact ⟨b, by simp [leaves], vval H vl ++ vval H vr, by simp [vlog], by simpa [vval, veval, tval, eval] using h.symm⟩
+    | node tl tr =>
+      have h' : H (vval H vl ++ vval H vr) = H (tval H tl ++ tval H tr) := by
+        simpa [vval, veval, tval, eval] using h
+      by_cases e : vval H vl ++ vval H vr = tval H tl ++ tval H tr
+      · by_cases hl : (vval H vl).length = (tval H tl).length
+        · obtain ⟨h1, h2⟩ := List.append_inj e hl
+          simp only [claims, List.mem_append] at hx
+          rcases hx with hx | hx
+          · rcases ihl tl h1 x hx with ⟨s, hs, hv⟩ | hE
+            · exact Or.inl ⟨s, by simp [subtrees, hs], hv⟩
+            · refine Or.inr (hE.mono ?_ ?_ ?_ ?_ ?_) <;> intro a ha <;>
+                simp [vlog, vpairs, tlog, tpairs, leaves, ha]
+          · rcases ihr tr h2 x hx with ⟨s, hs, hv⟩ | hE
+            · exact Or.inl ⟨s, by simp [subtrees, hs], hv⟩
+            · refine Or.inr (hE.mono ?_ ?_ ?_ ?_ ?_) <;> intro a ha <;>
+                simp [vlog, vpairs, tlog, tpairs, leaves, ha]
+        · right; right; right
+          exact ⟨(vval H vl, vval H vr), by simp [vpairs], (tval H tl, tval H tr), by simp [tpairs], e, hl⟩
+      · right; left
+        exact ⟨_, by simp [vlog], _, by simp [tlog], e, h'⟩
+
+/-- the verifier's expression: `calculate_root` run on symbolic items (claimed leaves and proof items) -/
+def verifierExpr (p : Proof Bytes) : Option (V Bytes) :=
+  calcRoot V.node (fuelFor p) p.size (mapL V.claim p.leaves) (p.items.map V.item)
+
+/-- **the log of `MKProof::verify`** (concatenations it hashes) and the child pairs -/
+def proofLog (H : Bytes → Bytes) (p : Proof Bytes) : List Bytes :=
+  match verifierExpr p with
+  | some e => vlog H e
+  | none => []
+def proofPairs (H : Bytes → Bytes) (p : Proof Bytes) : List (Bytes × Bytes) :=
+  match verifierExpr p with
+  | some e => vpairs H e
+  | none => []
+
+/-- `proofLog` IS the log of an instrumented run of the verifier (each merge hashes `a ++ b` and records it,
+`MmrBytes.mergeLog`), and its value the computed root -/
+theorem proofLog_faithful (H : Bytes → Bytes) (p : Proof Bytes) :
+    calcRoot (MmrBytes.mergeLog H) (fuelFor p) p.size (mapL (fun a => (a, [])) p.leaves) (p.items.map fun a => (a, []))
+      = (calcRoot (bmerge H) (fuelFor p) p.size p.leaves p.items).map fun r => (r, proofLog H p) := by
+  have hom1 : ∀ a b : V Bytes, (fun v => (vval H v, vlog H v)) (V.node a b)
+      = MmrBytes.mergeLog H ((fun v => (vval H v, vlog H v)) a) ((fun v => (vval H v, vlog H v)) b) := fun _ _ => rfl
+  have m1 := calcRoot_map V.node (MmrBytes.mergeLog H) (fun v => (vval H v, vlog H v)) hom1 (fuelFor p) p.size
+    (mapL V.claim p.leaves) (p.items.map V.item)
+  have hom2 : ∀ a b : V Bytes, vval H (V.node a b) = bmerge H (vval H a) (vval H b) := fun _ _ => rfl
+  have m2 := calcRoot_map V.node (bmerge H) (vval H) hom2 (fuelFor p) p.size
+    (mapL V.claim p.leaves) (p.items.map V.item)
+  have e1 : mapL (fun v => (vval H v, vlog H v)) (mapL V.claim p.leaves) = mapL (fun a => (a, [])) p.leaves := by
+    simp only [mapL, List.map_map]; apply List.map_congr_left; intro e _; rfl
+  have e2 : (p.items.map V.item).map (fun v => (vval H v, vlog H v)) = p.items.map fun a => (a, []) := by
+    simp only [List.map_map]; apply List.map_congr_left; intro e _; rfl
+  have e3 : mapL (vval H) (mapL V.claim p.leaves) = p.leaves := by
+    simp only [mapL, List.map_map]
+    conv => rhs; rw [← List.map_id p.leaves]
+    apply List.map_congr_left; intro e _; rfl
+  have e4 : (p.items.map V.item).map (vval H) = p.items := by
+    simp only [List.map_map]
+    conv => rhs; rw [← List.map_id p.items]
+    apply List.map_congr_left; intro e _; rfl
+  rw [e1, e2] at m1; rw [e3, e4] at m2
+  rw [m1, m2]
+  unfold proofLog verifierExpr
+  cases calcRoot V.node (fuelFor p) p.size (mapL V.claim p.leaves) (p.items.map V.item) <;> rfl
+
+/-- an accepted proof: its expression exists, evaluates to the root, and every listed leaf is a claim of it
+(`MapLink.verify_gives_expr` with the expression named) -/
+theorem verify_expr (H : Bytes → Bytes) (p : Proof Bytes) (hv : MkProof.verify (bmerge H) p = true) :
+    ∃ e, verifierExpr p = some e ∧ vval H e = p.root ∧ ∀ l ∈ p.leaves, l.2 ∈ claims e := by
+  unfold MkProof.verify at hv
+  simp only [Bool.and_eq_true, beq_iff_eq] at hv
+  obtain ⟨hnc, hcalc⟩ := hv
+  have hom : ∀ a b : V Bytes, vval H (V.node a b) = bmerge H (vval H a) (vval H b) := fun _ _ => rfl
+  have hmap := calcRoot_map V.node (bmerge H) (vval H) hom (fuelFor p) p.size
+    (mapL V.claim p.leaves) (p.items.map V.item)
+  have h1 : mapL (vval H) (mapL V.claim p.leaves) = p.leaves := by
+    simp only [mapL, List.map_map]
+    conv => rhs; rw [← List.map_id p.leaves]
+    apply List.map_congr_left; intro e _; rfl
+  have h2 : (p.items.map V.item).map (vval H) = p.items := by
+    simp only [List.map_map]
+    conv => rhs; rw [← List.map_id p.items]
+    apply List.map_congr_left; intro e _; rfl
+  rw [h1, h2, hcalc] at hmap
+  unfold verifierExpr
+  cases he : calcRoot V.node (fuelFor p) p.size (mapL V.claim p.leaves) (p.items.map V.item) with
+  | none => rw [he] at hmap; simp at hmap
+  | some e =>
+    rw [he] at hmap
+    simp only [Option.map_some, Option.some.injEq] at hmap
+    refine ⟨e, rfl, hmap.symm, ?_⟩
+    intro l hl
+    obtain ⟨y, hy, hpos⟩ := dedupPos_pos (sortPos p.leaves) l ((mem_sortPos _ _).mpr hl)
+    have hyl : y ∈ p.leaves := (mem_sortPos _ _).mp (dedupPos_sub _ y hy)
+    have hval : y.2 = l.2 := noConflict_spec hnc y hyl l hl hpos
+    have hy' : (y.1, V.claim y.2) ∈ dedupPos (sortPos (mapL V.claim p.leaves)) := by
+      rw [sortPos_mapL, dedupPos_mapL]
+      simp only [mapL, List.mem_map]
+      exact ⟨y, hy, rfl⟩
+    have := calcRoot_cover (fuelFor p) p.size _ _ e he _ hy' y.2 (by simp [claims])
+    rw [hval] at this
+    exact this
+
+/-- **repaired `C09_mkproof_sound`, byte level, no hypothesis on the hash**: whatever an accepted proof
+against the root of the committed tree `t` contains is the value of a sub-tree of `t`, or one of the three
+named coincidences between the verifier's log and the tree's log occurred -/
+theorem C09_mkproof_sound_witness (H : Bytes → Bytes) (t : E Bytes) (p : Proof Bytes)
+    (hroot : p.root = tval H t) (hv : MkProof.verify (bmerge H) p = true)
+    (x : Bytes) (hc : MkProof.contains p [x] = true) :
+    (∃ s ∈ subtrees t, x = tval H s) ∨
+      Expl H (proofLog H p) (proofPairs H p) (tlog H t) (tpairs H t) (leaves t) := by
+  obtain ⟨e, he, hval, hcl⟩ := verify_expr H p hv
+  simp only [MkProof.contains, List.all_cons, List.all_nil, Bool.and_true, List.any_eq_true, beq_iff_eq] at hc
+  obtain ⟨l, hl, rfl⟩ := hc
+  have := claim_cases H e t (by rw [hval, hroot]) l.2 (hcl l hl)
+  unfold proofLog proofPairs
+  rw [he]
+  exact this
+
+/-- … for committed leaves and a contained value whose length is not the hash length (`H` with 32-byte
+outputs): the contained value IS a committed leaf, and the "committed leaf is a hash" case cannot occur -/
+theorem C09_mkproof_sound_witness_sized (H : Bytes → Bytes) (hH : ∀ x, (H x).length = 32) (t : E Bytes)
+    (hT : ∀ a ∈ leaves t, a.length ≠ 32) (p : Proof Bytes)
+    (hroot : p.root = tval H t) (hv : MkProof.verify (bmerge H) p = true)
+    (x : Bytes) (hc : MkProof.contains p [x] = true) (hx : x.length ≠ 32) :
+    x ∈ leaves t ∨
+    (∃ a ∈ proofLog H p, ∃ b ∈ tlog H t, a ≠ b ∧ H a = H b) ∨
+    (∃ pq ∈ proofPairs H p, ∃ q ∈ tpairs H t, pq.1 ++ pq.2 = q.1 ++ q.2 ∧ pq.1.length ≠ q.1.length) := by
+  rcases C09_mkproof_sound_witness H t p hroot hv x hc with ⟨s, hs, hxs⟩ | h | h | h
+  · cases s with
+    | leaf b =>
+      left
+      have : x = b := by simpa [tval, eval] using hxs
+      subst this
+      exact leaves_of_subtree hs x (by simp [leaves])
+    | node l r =>
+      exfalso
+      apply hx
+      rw [hxs]
+      simp [tval, eval, hH]
+  · exact Or.inr (Or.inl h)
+  · exfalso
+    obtain ⟨b, hb, y, _, he⟩ := h
+    exact hT b hb (by rw [he]; exact hH y)
+  · exact Or.inr (Or.inr h)
+
+/-! ### a world that satisfies every hypothesis: two 64-byte leaves, table hash -/
+
+def d1 : Bytes := List.replicate 64 49
+def d2 : Bytes := List.replicate 64 50
+def hM (x : Bytes) : Bytes := if x = d1 ++ d2 then c 1 else c 0
+
+theorem hM_len (x : Bytes) : (hM x).length = 32 := by unfold hM; split <;> simp [c]
+
+def tM : E Bytes := .node (.leaf d1) (.leaf d2)
+def pM : Proof Bytes := { root := c 1, leaves := [(0, d1)], size := 3, items := [d2] }
+
+/-- **`C09_mkproof_sound_witness(_sized)`: all hypotheses at once and every exceptional disjunct false** — an
+ACCEPTED byte-level proof; `x` is a committed leaf -/
+theorem sat_mkproof_witness :
+    (∀ x, (hM x).length = 32) ∧ (∀ a ∈ leaves tM, a.length ≠ 32) ∧ pM.root = tval hM tM ∧
+    MkProof.verify (bmerge hM) pM = true ∧ MkProof.contains pM [d1] = true ∧ d1.length ≠ 32 ∧
+    proofLog hM pM = [d1 ++ d2] ∧ tlog hM tM = [d1 ++ d2] ∧
+    ¬ Expl hM (proofLog hM pM) (proofPairs hM pM) (tlog hM tM) (tpairs hM tM) (leaves tM) := by
+  have e1 : proofLog hM pM = [d1 ++ d2] := by decide +kernel
+  have e2 : tlog hM tM = [d1 ++ d2] := by decide +kernel
+  have e3 : proofPairs hM pM = [(d1, d2)] := by decide +kernel
+  have e4 : tpairs hM tM = [(d1, d2)] := by decide +kernel
+  have e5 : leaves tM = [d1, d2] := rfl
+  refine ⟨hM_len, by decide +kernel, by decide +kernel, by decide +kernel, by decide +kernel, by decide +kernel,
+    e1, e2, ?_⟩
+  rw [e1, e2, e3, e4, e5]
+  rintro (⟨a, ha, b, hb, hne, _⟩ | ⟨b, hb, y, hy, he⟩ | ⟨p, hp, q, hq, _, hl⟩)
+  · simp only [List.mem_cons, List.mem_nil_iff, or_false] at ha hb
+    exact hne (ha.trans hb.symm)
+  · simp only [List.mem_cons, List.mem_nil_iff, or_false] at hb hy
+    subst hy
+    have : (hM (d1 ++ d2)).length = 32 := hM_len _
+    rcases hb with rfl | rfl <;> rw [← he] at this <;> revert this <;> decide +kernel
+  · simp only [List.mem_cons, List.mem_nil_iff, or_false] at hp hq
+    subst hp; subst hq
+    exact hl rfl
+
+
+/-! ## repair of C09(c): nested `MKMapProof` at byte level -/
+
+theorem tlog_of_subtree {H : Bytes → Bytes} {s t : E Bytes} (h : s ∈ subtrees t) : ∀ a ∈ tlog H s, a ∈ tlog H t := by
+  induction t with
+  | leaf a => simp [subtrees] at h; subst h; exact fun _ h => h
+  | node l r ihl ihr =>
+    simp only [subtrees, List.mem_cons, List.mem_append] at h
+    rcases h with rfl | h | h
+    · exact fun _ h => h
+    · intro a ha; simp only [tlog, List.mem_cons, List.mem_append]; exact Or.inr (Or.inl (ihl h a ha))
+    · intro a ha; simp only [tlog, List.mem_cons, List.mem_append]; exact Or.inr (Or.inr (ihr h a ha))
+
+theorem tpairs_of_subtree {H : Bytes → Bytes} {s t : E Bytes} (h : s ∈ subtrees t) :
+    ∀ a ∈ tpairs H s, a ∈ tpairs H t := by
+  induction t with
+  | leaf a => simp [subtrees] at h; subst h; exact fun _ h => h
+  | node l r ihl ihr =>
+    simp only [subtrees, List.mem_cons, List.mem_append] at h
+    rcases h with rfl | h | h
+    · exact fun _ h => h
+    · intro a ha; simp only [tpairs, List.mem_cons, List.mem_append]; exact Or.inr (Or.inl (ihl h a ha))
+    · intro a ha; simp only [tpairs, List.mem_cons, List.mem_append]; exact Or.inr (Or.inr (ihr h a ha))
+
+/-- **the log of `MKMapProof::verify`**: the logs of the master proof and of every sub-proof at any depth, and
+the link strings `key ++ sub-root` -/
+inductive InMapLog (H : Bytes → Bytes) : MapProof Bytes → Bytes → Prop where
+  | master {p : MapProof Bytes} {a : Bytes} : a ∈ proofLog H p.master → InMapLog H p a
+  | link {p : MapProof Bytes} {k : Bytes} {q : MapProof Bytes} : (k, q) ∈ p.subs → InMapLog H p (k ++ q.master.root)
+  | sub {p : MapProof Bytes} {k : Bytes} {q : MapProof Bytes} {a : Bytes} :
+      (k, q) ∈ p.subs → InMapLog H q a → InMapLog H p a
+
+inductive InMapPairs (H : Bytes → Bytes) : MapProof Bytes → Bytes × Bytes → Prop where
+  | master {p : MapProof Bytes} {a : Bytes × Bytes} : a ∈ proofPairs H p.master → InMapPairs H p a
+  | link {p : MapProof Bytes} {k : Bytes} {q : MapProof Bytes} : (k, q) ∈ p.subs → InMapPairs H p (k, q.master.root)
+  | sub {p : MapProof Bytes} {k : Bytes} {q : MapProof Bytes} {a : Bytes × Bytes} :
+      (k, q) ∈ p.subs → InMapPairs H q a → InMapPairs H p a
+
+/-- the three named coincidences, for a nested proof -/
+def ExplM (H : Bytes → Bytes) (p : MapProof Bytes) (t : E Bytes) : Prop :=
+  (∃ a, InMapLog H p a ∧ ∃ b ∈ tlog H t, a ≠ b ∧ H a = H b) ∨
+  (∃ b ∈ leaves t, ∃ y, InMapLog H p y ∧ b = H y) ∨
+  (∃ pq, InMapPairs H p pq ∧ ∃ q ∈ tpairs H t, pq.1 ++ pq.2 = q.1 ++ q.2 ∧ pq.1.length ≠ q.1.length)
+
+theorem ExplM.of_master {H : Bytes → Bytes} {p : MapProof Bytes} {t : E Bytes}
+    (h : Expl H (proofLog H p.master) (proofPairs H p.master) (tlog H t) (tpairs H t) (leaves t)) : ExplM H p t := by
+  rcases h with ⟨a, ha, b, hb, hne, he⟩ | ⟨b, hb, y, hy, he⟩ | ⟨pq, hp, q, hq, he, hl⟩
+  · exact Or.inl ⟨a, .master ha, b, hb, hne, he⟩
+  · exact Or.inr (Or.inl ⟨b, hb, y, .master hy, he⟩)
+  · exact Or.inr (Or.inr ⟨pq, .master hp, q, hq, he, hl⟩)
+
+theorem ExplM.of_sub {H : Bytes → Bytes} {p q : MapProof Bytes} {k : Bytes} {s t : E Bytes} (hq : (k, q) ∈ p.subs)
+    (hs : s ∈ subtrees t) (h : ExplM H q s) : ExplM H p t := by
+  rcases h with ⟨a, ha, b, hb, hne, he⟩ | ⟨b, hb, y, hy, he⟩ | ⟨pq, hp, r, hr, he, hl⟩
+  · exact Or.inl ⟨a, .sub hq ha, b, tlog_of_subtree hs b hb, hne, he⟩
+  · exact Or.inr (Or.inl ⟨b, leaves_of_subtree hs b hb, y, .sub hq hy, he⟩)
+  · exact Or.inr (Or.inr ⟨pq, .sub hq hp, r, tpairs_of_subtree hs r hr, he, hl⟩)
+
+theorem containsSubs_mem {subs : List (Bytes × MapProof Bytes)} {x : Bytes} (h : containsSubs subs x = true) :
+    ∃ k q, (k, q) ∈ subs ∧ q.contains x = true := by
+  induction subs with
+  | nil => simp [containsSubs] at h
+  | cons a r ihr =>
+    obtain ⟨k, q⟩ := a
+    simp only [containsSubs, Bool.or_eq_true] at h
+    rcases h with h | h
+    · exact ⟨k, q, by simp, h⟩
+    · obtain ⟨k', q', hm, hc⟩ := ihr h
+      exact ⟨k', q', by simp [hm], hc⟩
+
+theorem map_sound_aux (H : Bytes → Bytes) : ∀ (n : Nat) (p : MapProof Bytes) (x : Bytes) (t : E Bytes),
+    sizeOf p ≤ n → p.verify (bmerge H) = true → p.contains x = true → p.master.root = tval H t →
+    (∃ s ∈ subtrees t, x = tval H s) ∨ ExplM H p t := by
+  intro n
+  induction n with
+  | zero => intro p x t hs; cases p with | mk m subs => simp at hs
+  | succ n ih =>
+    intro p x t hs hv hc hr
+    cases p with
+    | mk m subs =>
+      simp only [MapProof.verify, Bool.and_eq_true, Bool.or_eq_true] at hv
+      obtain ⟨⟨hsubs, hm⟩, hlink⟩ := hv
+      simp only [MapProof.contains, Bool.or_eq_true] at hc
+      have hr' : m.root = tval H t := hr
+      rcases hc with hc | hc
+      · rcases C09_mkproof_sound_witness H t m hr' hm x hc with h | h
+        · exact Or.inl h
+        · exact Or.inr (ExplM.of_master h)
+      · obtain ⟨k, q, hq, hcq⟩ := containsSubs_mem hc
+        have hq' : (k, q) ∈ (MapProof.mk m subs).subs := hq
+        have hlt : sizeOf q ≤ n := by
+          have h1 := List.sizeOf_lt_of_mem hq
+          simp only [MapProof.mk.sizeOf_spec, Prod.mk.sizeOf_spec] at h1 hs
+          omega
+        -- the link node is a listed leaf of the master proof, hence a claim of its expression
+        have hl : bmerge H k q.master.root ∈ m.leaves.map (·.2) := by
+          rcases hlink with hempty | hcl
+          · cases subs with
+            | nil => simp at hq
+            | cons _ _ => simp at hempty
+          · exact MapLink.contains_all hcl _ (MapLink.linkNodes_mem (bmerge H) hq)
+        obtain ⟨lf, hlf, hlv⟩ := List.mem_map.mp hl
+        obtain ⟨e, he, hval, hcl⟩ := verify_expr H m hm
+        have hcase := claim_cases H e t (by rw [hval, hr']) _ (hcl lf hlf)
+        rw [hlv] at hcase
+        rcases hcase with ⟨s, hs', hv'⟩ | hE
+        · cases s with
+          | leaf b =>
+            right; right; left
+            refine ⟨b, leaves_of_subtree hs' b (by simp [leaves]), k ++ q.master.root, .link hq', ?_⟩
+            simpa [tval, eval, bmerge] using hv'.symm
+          | node l r' =>
+            have hh : H (k ++ q.master.root) = H (tval H l ++ tval H r') := by
+              simpa [tval, eval, bmerge] using hv'
+            by_cases e1 : k ++ q.master.root = tval H l ++ tval H r'
+            · by_cases e2 : k.length = (tval H l).length
+              · obtain ⟨_, hroot⟩ := List.append_inj e1 e2
+                have hsub : r' ∈ subtrees t :=
+                  subtrees_trans (by simp [subtrees, self_mem_subtrees]) hs'
+                rcases ih q x r' hlt (MapLink.verifySubs_mem (bmerge H) hsubs hq) hcq hroot with ⟨s2, hs2, hx2⟩ | hE2
+                · exact Or.inl ⟨s2, subtrees_trans hs2 hsub, hx2⟩
+                · exact Or.inr (ExplM.of_sub hq' hsub hE2)
+              · right; right; right
+                exact ⟨(k, q.master.root), .link hq', (tval H l, tval H r'),
+                  tpairs_of_subtree hs' _ (by simp [tpairs]), e1, e2⟩
+            · right; left
+              exact ⟨k ++ q.master.root, .link hq', tval H l ++ tval H r',
+                tlog_of_subtree hs' _ (by simp [tlog]), e1, hh⟩
+        · have : Expl H (proofLog H m) (proofPairs H m) (tlog H t) (tpairs H t) (leaves t) := by
+            unfold proofLog proofPairs; rw [he]; exact hE
+          exact Or.inr (ExplM.of_master this)
+
+/-- **repaired `C09_map_exec_sound` / `C09_map_sound`, byte level, no hypothesis on the hash**: whatever an
+accepted nested proof of any depth contains is the value of a sub-tree of the single expression tree its
+master root commits to — or a named coincidence between the nested verifier's log and the tree's log -/
+theorem C09_map_exec_sound_witness (H : Bytes → Bytes) (p : MapProof Bytes) (x : Bytes)
+    (hv : p.verify (bmerge H) = true) (hc : p.contains x = true)
+    (t : E Bytes) (hr : p.master.root = tval H t) :
+    (∃ s ∈ subtrees t, x = tval H s) ∨ ExplM H p t :=
+  map_sound_aux H (sizeOf p) p x t (Nat.le_refl _) hv hc hr
+
+/-- … with 32-byte `H`, committed leaves (keys and elements) and a contained value of other lengths: the value
+IS a committed leaf, or two different hashed strings collide, or a concatenation splits at two points -/
+theorem C09_map_exec_sound_witness_sized (H : Bytes → Bytes) (hH : ∀ x, (H x).length = 32)
+    (p : MapProof Bytes) (x : Bytes) (hv : p.verify (bmerge H) = true) (hc : p.contains x = true)
+    (t : E Bytes) (hr : p.master.root = tval H t) (hT : ∀ a ∈ leaves t, a.length ≠ 32) (hx : x.length ≠ 32) :
+    x ∈ leaves t ∨
+    (∃ a, InMapLog H p a ∧ ∃ b ∈ tlog H t, a ≠ b ∧ H a = H b) ∨
+    (∃ pq, InMapPairs H p pq ∧ ∃ q ∈ tpairs H t, pq.1 ++ pq.2 = q.1 ++ q.2 ∧ pq.1.length ≠ q.1.length) := by
+  rcases C09_map_exec_sound_witness H p x hv hc t hr with ⟨s, hs, hxs⟩ | h | h | h
+  · cases s with
+    | leaf b =>
+      left
+      have : x = b := by simpa [tval, eval] using hxs
+      subst this
+      exact leaves_of_subtree hs x (by simp [leaves])
+    | node l r =>
+      exfalso
+      apply hx
+      rw [hxs]
+      simp [tval, eval, hH]
+  · exact Or.inr (Or.inl h)
+  · exfalso
+    obtain ⟨b, hb, y, _, he⟩ := h
+    exact hT b hb (by rw [he]; exact hH y)
+  · exact Or.inr (Or.inr h)
+
+/-! ### a nested world: two keyed sub-trees, table hash; all hypotheses hold and `ExplM` is false -/
+
+/-- a table hash: listed inputs get their listed value, everything else `dflt` -/
+def tableH (tb : List (Bytes × Bytes)) (dflt : Bytes) (x : Bytes) : Bytes :=
+  match tb.find? (fun e => e.1 = x) with
+  | some e => e.2
+  | none => dflt
+
+/-- with pairwise different listed values, all different from the default, a listed input has no second
+pre-image -/
+theorem tableH_unique (tb : List (Bytes × Bytes)) (dflt : Bytes) (hnd : (tb.map (·.2)).Nodup)
+    (hd : dflt ∉ tb.map (·.2)) : ∀ y ∈ tb.map (·.1), ∀ x, tableH tb dflt x = tableH tb dflt y → x = y := by
+  intro y hy x h
+  obtain ⟨e0, he0, rfl⟩ := List.mem_map.mp hy
+  have hfy : ∃ e, tb.find? (fun e => e.1 = e0.1) = some e := by
+    cases hf : tb.find? (fun e => e.1 = e0.1) with
+    | some e => exact ⟨e, rfl⟩
+    | none =>
+      have := List.find?_eq_none.mp hf e0 he0
+      simp at this
+  obtain ⟨e, hfe⟩ := hfy
+  have hem : e ∈ tb := List.mem_of_find?_eq_some hfe
+  have hek : e.1 = e0.1 := by simpa using List.find?_some hfe
+  unfold tableH at h
+  rw [hfe] at h
+  cases hfx : tb.find? (fun e => e.1 = x) with
+  | none =>
+    rw [hfx] at h
+    exact absurd (List.mem_map.mpr ⟨e, hem, h.symm⟩) hd
+  | some e' =>
+    rw [hfx] at h
+    have hem' : e' ∈ tb := List.mem_of_find?_eq_some hfx
+    have hek' : e'.1 = x := by simpa using List.find?_some hfx
+    have : e' = e := List.inj_on_of_nodup_map hnd hem' hem h
+    rw [← hek', this, hek]
+
+def k1 : Bytes := List.replicate 5 107
+def k2 : Bytes := List.replicate 5 108
+def a1 : Bytes := List.replicate 64 49
+def a2 : Bytes := List.replicate 64 50
+def b1 : Bytes := List.replicate 64 51
+def b2 : Bytes := List.replicate 64 52
+
+def tbN : List (Bytes × Bytes) :=
+  [(a1 ++ a2, c 1), (k1 ++ c 1, c 2), (b1 ++ b2, c 3), (k2 ++ c 3, c 4), (c 2 ++ c 4, c 5)]
+def hN : Bytes → Bytes := tableH tbN (c 0)
+
+theorem hN_len (x : Bytes) : (hN x).length = 32 := by
+  unfold hN tableH
+  split
+  · rename_i e he
+    have := List.mem_of_find?_eq_some he
+    simp only [tbN, List.mem_cons, List.mem_nil_iff, or_false] at this
+    rcases this with rfl | rfl | rfl | rfl | rfl <;> simp [c]
+  · simp [c]
+
+def subN : Proof Bytes := { root := c 1, leaves := [(0, a1)], size := 3, items := [a2] }
+def masterN : Proof Bytes := { root := c 5, leaves := [(0, c 2)], size := 3, items := [c 4] }
+def mapN : MapProof Bytes := .mk masterN [(k1, .mk subN [])]
+/-- the single tree the master root commits to: keys and elements are its leaves -/
+def tN : E Bytes :=
+  .node (.node (.leaf k1) (.node (.leaf a1) (.leaf a2))) (.node (.leaf k2) (.node (.leaf b1) (.leaf b2)))
+
+theorem inMapLog_N {a : Bytes} (h : InMapLog hN mapN a) : a ∈ tlog hN tN := by
+  have e1 : proofLog hN masterN = [c 2 ++ c 4] := by decide +kernel
+  have e2 : proofLog hN subN = [a1 ++ a2] := by decide +kernel
+  have e3 : tlog hN tN = [c 2 ++ c 4, k1 ++ c 1, a1 ++ a2, k2 ++ c 3, b1 ++ b2] := by decide +kernel
+  rw [e3]
+  cases h with
+  | master h => have : mapN.master = masterN := rfl
+                rw [this, e1] at h; simp at h; simp [h]
+  | link hq =>
+    have : mapN.subs = [(k1, .mk subN [])] := rfl
+    rw [this] at hq; simp at hq; obtain ⟨rfl, rfl⟩ := hq
+    simp [MapProof.master, subN]
+  | sub hq h2 =>
+    have : mapN.subs = [(k1, .mk subN [])] := rfl
+    rw [this] at hq; simp at hq; obtain ⟨rfl, rfl⟩ := hq
+    cases h2 with
+    | master h => have : (MapProof.mk subN []).master = subN := rfl
+                  rw [this, e2] at h; simp at h; simp [h]
+    | link hq2 => simp [MapProof.subs] at hq2
+    | sub hq2 _ => simp [MapProof.subs] at hq2
+
+theorem inMapPairs_N {a : Bytes × Bytes} (h : InMapPairs hN mapN a) : a ∈ tpairs hN tN := by
+  have e1 : proofPairs hN masterN = [(c 2, c 4)] := by decide +kernel
+  have e2 : proofPairs hN subN = [(a1, a2)] := by decide +kernel
+  have e3 : tpairs hN tN = [(c 2, c 4), (k1, c 1), (a1, a2), (k2, c 3), (b1, b2)] := by decide +kernel
+  rw [e3]
+  cases h with
+  | master h => have : mapN.master = masterN := rfl
+                rw [this, e1] at h; simp at h; simp [h]
+  | link hq =>
+    have : mapN.subs = [(k1, .mk subN [])] := rfl
+    rw [this] at hq; simp at hq; obtain ⟨rfl, rfl⟩ := hq
+    simp [MapProof.master, subN]
+  | sub hq h2 =>
+    have : mapN.subs = [(k1, .mk subN [])] := rfl
+    rw [this] at hq; simp at hq; obtain ⟨rfl, rfl⟩ := hq
+    cases h2 with
+    | master h => have : (MapProof.mk subN []).master = subN := rfl
+                  rw [this, e2] at h; simp at h; simp [h]
+    | link hq2 => simp [MapProof.subs] at hq2
+    | sub hq2 _ => simp [MapProof.subs] at hq2
+
+/-- **`C09_map_exec_sound_witness(_sized)`: all hypotheses at once, every exceptional disjunct false** — an
+ACCEPTED nested byte-level proof with a non-empty sub-proof list; the contained value `a1` (found in the
+sub-proof) is a committed leaf -/
+theorem sat_map_witness :
+    (∀ x, (hN x).length = 32) ∧ mapN.verify (bmerge hN) = true ∧ mapN.contains a1 = true ∧
+    MkProof.contains mapN.master [a1] = false ∧ mapN.master.root = tval hN tN ∧
+    (∀ a ∈ leaves tN, a.length ≠ 32) ∧ a1.length ≠ 32 ∧ ¬ ExplM hN mapN tN := by
+  refine ⟨hN_len, by decide +kernel, by decide +kernel, by decide +kernel, by decide +kernel, by decide +kernel,
+    by decide +kernel, ?_⟩
+  have hu := tableH_unique tbN (c 0) (by decide +kernel) (by decide +kernel)
+  rintro (⟨a, ha, b, hb, hne, he⟩ | ⟨b, hb, y, _, he⟩ | ⟨pq, hp, q, hq, he, hl⟩)
+  · -- a collision between two logged strings: the table hash has none on the tree's log
+    have hsub : ∀ b ∈ tlog hN tN, b ∈ tbN.map (·.1) := by decide +kernel
+    exact hne (hu b (hsub b hb) a he)
+  · -- a committed leaf that is a hash: lengths
+    have h32 : b.length = 32 := by rw [he]; exact hN_len y
+    have : ∀ a ∈ leaves tN, a.length ≠ 32 := by decide +kernel
+    exact this b hb h32
+  · -- a concatenation that splits at two points: every pair of the verifier is a pair of the tree, and the
+    -- pairs of the tree have pairwise different concatenations
+    have hp' := inMapPairs_N hp
+    have e4 : tpairs hN tN = [(c 2, c 4), (k1, c 1), (a1, a2), (k2, c 3), (b1, b2)] := by decide +kernel
+    rw [e4] at hp' hq
+    have key : ∀ p ∈ [(c 2, c 4), (k1, c 1), (a1, a2), (k2, c 3), (b1, b2)],
+        ∀ q ∈ [(c 2, c 4), (k1, c 1), (a1, a2), (k2, c 3), (b1, b2)],
+        p.1 ++ p.2 = q.1 ++ q.2 → p.1.length = q.1.length := by decide +kernel
+    exact hl (key pq hp' q hq he)
 
 end Vacuity.C09
